@@ -14,11 +14,14 @@
 (* trees; a passing batch returns one tree per query in order.             *)
 (* All batches of length <= MaxLen over {ok, syntax, lex} are explored,    *)
 (* and long batches (lengths LongLens) with at most two failing queries at *)
-(* probe positions and an optional heavy query in front.                   *)
+(* probe positions and an optional heavy query in front, and uniform       *)
+(* batches (lengths UniformLens, beyond the nesting limit): ONE accepted   *)
+(* query repeated - a resource of the shared parser that a query leaves    *)
+(* one unit short (a depth counter, a buffer) runs out only there.         *)
 (***************************************************************************)
 EXTENDS Integers, Sequences, FiniteSets, TLC, Json
 
-CONSTANTS MaxLen, LongLens, Emit
+CONSTANTS MaxLen, LongLens, UniformLens, Emit
 
 Bad == {"syntax", "lex"}
 Short == UNION {[1..n -> {"ok", "syntax", "lex"}] : n \in 0..MaxLen}
@@ -28,10 +31,12 @@ Long == UNION {
               i \in Probe(len), j \in Probe(len), ci \in Bad, cj \in Bad \cup {"ok"}, heavy \in BOOLEAN }
           : len \in LongLens }
 
+Uniform == {[k \in 1..len |-> "same"] : len \in UniformLens}
+
 VARIABLES batch, cursor, trees, result
 vars == <<batch, cursor, trees, result>>
 
-Init == /\ batch \in Short \cup Long
+Init == /\ batch \in Short \cup Long \cup Uniform
         /\ cursor = 1 /\ trees = <<>> /\ result = [st |-> "running", index |-> -1, family |-> ""]
 
 ParseOne == /\ result.st = "running" /\ cursor <= Len(batch)
